@@ -28,7 +28,8 @@ Record wf (r : registry) : Prop := {
   wf_parent_lt : forall i p, parent_of r i = Some p -> p < i;    (* the parent chain is well founded: parents are numbered first *)
   wf_contents : forall p c, In c (contents_of r p) -> valid r c /\ parent_of r c = Some p;
   wf_roots : forall o, In o (r_roots r) -> valid r o /\ parent_of r o = None /\ own_page r o = true;
-  wf_member_parent : forall c p, own_page r c = false -> parent_of r c = Some p -> own_page r p = true
+  wf_parent_own : forall c p, parent_of r c = Some p -> own_page r p = true;   (* only modules, packages and classes contain objects *)
+  wf_module_own : forall c m, module_of r c = Some m -> own_page r m = true
 }.
 
 (* no superseded duplicates / collision leftovers: everything registered is reachable through contents *)
@@ -48,6 +49,14 @@ Definition listing_prod (p : N) : bool :=
                      P_overridden_in; P_hierarchy; P_module_index; P_class_index; P_name_index; P_undocced;
                      P_index_roots; P_alldocs; P_corpus; P_inventory].
 Definition root_prod (p : N) : bool := N.eqb p P_module_index || N.eqb p P_index_roots.
+
+(* producers whose href is not built by linker.taglink *)
+Definition raw_prod (p : N) : bool := existsb (N.eqb p) [P_hierarchy; P_childlist; P_alldocs; P_corpus; P_inventory].
+
+(* the root listings (moduleIndex, index.html) are safe when they filter on visibility or no root is hidden *)
+Definition roots_guard (tbl : table) (r : registry) : Prop :=
+  (l_visible (t_modindex_roots tbl) = true /\ l_visible (t_index_roots tbl) = true) \/
+  (forall o, In o (r_roots r) -> visible r o = true).
 
 (* producers named by C12: member tables, member details, sidebar, module index, search documents *)
 Definition marked_prod (p : N) : bool :=
